@@ -379,10 +379,17 @@ class Executor:
     def loop(self, node, state, kind):
         ctx = self.ctx
         arange = None
+        elem_of = None
         if kind == 'for':
             if not (isinstance(node.iter, ast.Call) and isinstance(node.iter.func, ast.Name) and node.iter.func.id == 'range'):
                 itv = self.ev(node.iter, state) if isinstance(node.iter, ast.Name) else None
                 arange = getattr(itv, 'arange', None) if isinstance(itv, SArr) else None
+                if arange is None and isinstance(itv, SList) and itv.kind == 'int' and node.iter.id not in {n_.id for st_ in node.body for n_ in ast.walk(st_) if isinstance(n_, ast.Name) and isinstance(n_.ctx, ast.Store)}:
+                    # for x in <list of integers> (the list is not rebound in the body): iteration k visits list[k]
+                    src = itv.snapshot()
+                    src.to_fn()
+                    arange = (z3.IntVal(0), zi(src.length), 1)
+                    elem_of = src
                 if arange is None:
                     raise Unsupported('for loop over %s at line %d' % (ast.unparse(node.iter), node.lineno))
             if not isinstance(node.target, ast.Name):
@@ -406,7 +413,16 @@ class Executor:
         outs = []
         entry = {k: (v.snapshot() if isinstance(v, (SList, STT)) else v) for k, v in state.env.items()}
         inv0 = inv
-        inv = lambda V, i, k, inv0=inv0, entry=entry: inv0(_with_entry(V, entry), i, k)  # noqa
+
+        def inv(V, i, k, inv0=inv0, entry=entry, key=key):
+            # an invariant that cannot be evaluated on the current code (a local it speaks about was renamed or removed, a value
+            # changed kind) leaves the function undecided - it is neither a crash of the checker nor a verdict
+            try:
+                return list(inv0(_with_entry(V, entry), i, k))
+            except Unsupported:
+                raise
+            except (KeyError, AttributeError, TypeError, IndexError) as e:
+                raise Unsupported('the invariant of loop `%s` cannot be evaluated on this code (%s: %s)' % (key, type(e).__name__, e))
         if kind == 'for':
             if arange is not None:
                 lo, hi, step = arange
@@ -425,7 +441,9 @@ class Executor:
                 n = z3.If(hi > lo, (hi - lo + (step - 1)) / step, z3.IntVal(0))
             # 1. initiation: invariant at k = 0
             s0 = state
-            s0.env[var] = lo
+            bindvar = (lambda st_, pos: st_.env.__setitem__(var, pos)) if elem_of is None else \
+                (lambda st_, pos: st_.env.__setitem__(var, elem_of.fn(zi(pos))))      # element loops: the variable holds list[pos]
+            bindvar(s0, lo)
             for lbl, g in inv(View(s0, self), lo, z3.IntVal(0)):
                 ctx.oblige(s0, 'inv-init[%s]:%s' % (key, lbl), node.lineno, g)
             # 2. arbitrary iteration
@@ -435,7 +453,7 @@ class Executor:
             self.havoc_mark(sb, state)
             sb.assume(z3.And(k >= 0, k < n))
             iv = lo + k * step
-            sb.env[var] = iv
+            bindvar(sb, iv)
             # variables declared by the contract as carried from one iteration to the next although they are first bound inside
             # the loop: bound at the head of every iteration but the first (checked at the end of every path through the body)
             carried = getattr(ctx.contract, 'loop_carried', {}).get(key, {})
@@ -449,7 +467,7 @@ class Executor:
             ctx.reach.append({'key': key, 'line': node.lineno, 'start': start_pc, 'ends': [list(o.state.pc) for o in body_outs]})
             for o in body_outs:
                 if o.kind == 'normal':
-                    o.state.env[var] = iv + step
+                    bindvar(o.state, iv + step)
                     for nm in carried:
                         v_ = o.state.env.get(nm)
                         if isinstance(v_, tuple) and len(v_) == 3 and v_[0] == 'maybe-unbound':
@@ -466,7 +484,7 @@ class Executor:
             sa = state.clone()
             self.havoc(node.body, sa, extra=[var])
             self.havoc_mark(sa, state)
-            sa.env[var] = lo + n * step
+            bindvar(sa, lo + n * step)
             # variables first bound inside the body exist after the loop iff it ran at least once: reading one is an obligation
             def _mu(x):
                 return isinstance(x, tuple) and len(x) == 3 and x[0] == 'maybe-unbound'
@@ -486,7 +504,7 @@ class Executor:
                 self.havoc_mark(sl, state)
                 sl.assume(n > 0)
                 il = lo + (n - 1) * step
-                sl.env[var] = il
+                bindvar(sl, il)
                 for nm, mk in carried.items():
                     if nm not in sl.env:
                         sl.env[nm] = ('maybe-unbound', n - 1 > 0, mk(sl))
@@ -519,7 +537,7 @@ class Executor:
             for lbl, g in inv(View(sa, self), lo + n * step, n):
                 sa.assume(g)
             # python leaves the loop variable at its last value (if any iteration ran); it is rarely used: havoc it
-            sa.env[var] = z3.If(n > 0, lo + (n - 1) * step, fresh(var + '_undef'))
+            sa.env[var] = z3.If(n > 0, lo + (n - 1) * step, fresh(var + '_undef')) if elem_of is None else fresh(var + '_last')
             outs.append(Outcome('normal', sa))
             return outs
         # while loop --------------------------------------------------------------------------------------------------------
@@ -809,6 +827,11 @@ class Executor:
         if isinstance(tgt, ast.Name):
             state.env[tgt.id] = v
         elif isinstance(tgt, (ast.Tuple, ast.List)):
+            if is_tag(v, 'shape-of'):
+                # a, b, c, d = x.shape for an array taken from a list: the number of targets fixes the rank
+                arr = v[1]
+                ctx.oblige(state, 'array-rank', node.lineno, zi(arr.ndim) == len(tgt.elts), 'cannot unpack the shape into %d names' % len(tgt.elts))
+                v = tuple(arr.shape[:len(tgt.elts)])
             vals = v.items if isinstance(v, SList) and v.items is not None else v
             if not isinstance(vals, (list, tuple)) or len(vals) != len(tgt.elts):
                 raise Unsupported('unpacking at line %d' % node.lineno)
